@@ -44,7 +44,9 @@ theorem respond_progress (s : LS) (i : Nat) (it : Inst) (hit : s.insts[i]? = som
     · rfl
     · split
       · rfl
-      · split <;> rfl
+      · split
+        · rfl
+        · split <;> rfl
   · subst he; left
     simp only [LS.step, hit, hpc, if_true]
     split <;> rfl
